@@ -393,13 +393,17 @@ func (c *Ctx) finish(start time.Time, runErr error, mut *MutantSummary) int {
 	if mut != nil {
 		cov["mutants"] = mut
 	}
+	assumptions := c.Assumptions
+	if assumptions == nil {
+		assumptions = []string{}
+	}
 	ev := map[string]interface{}{
 		"property_id": c.Prop,
 		"tier":        c.Tier,
 		"seed":        seedFromEnv(),
 		"level":       "other",
 		"coverage":    cov,
-		"assumptions": c.Assumptions,
+		"assumptions": assumptions,
 		"wall_s":      wall,
 		"violations":  len(rep.Violations),
 	}
